@@ -30,6 +30,7 @@ class Probe:
         self.armed = None  # (name, index)
         self.fired = False
         self.total = {}
+        self.actions = []  # [(label prefix, fn(label, obj))] run inside the callback (after the fault decision)
 
     def reset(self):
         self.log = []
@@ -41,7 +42,7 @@ class Probe:
         self.reset()
         self.armed = (name, index)
 
-    def enter(self, name):
+    def enter(self, name, obj=None):
         i = self.counts.get(name, 0)
         self.counts[name] = i + 1
         self.total[name] = self.total.get(name, 0) + 1
@@ -49,6 +50,9 @@ class Probe:
         if self.armed is not None and self.armed == (name, i) and not self.fired:
             self.fired = True
             raise InjectedFault(f"injected fault in callback {name} (invocation #{i})")
+        for prefix, fn in self.actions:
+            if name.startswith(prefix):
+                fn(name, obj)
 
     def invocations(self):
         """[(name, i)] for every callback invocation recorded since reset."""
